@@ -120,6 +120,14 @@ func (r *Run) N(quick, thorough int) int {
 func (r *Run) Replaying() bool { return r.only >= 0 }
 
 // Skip is true for every case but the one being replayed.
+// Abort ends the process with an inconclusive result: used when the process state can no longer be trusted (a
+// worker of the cooperative scheduler is stuck outside a yield point, possibly holding locks).
+func (r *Run) Abort(msg string) {
+	r.Inconclusive(msg)
+	r.Finish()
+	os.Exit(0)
+}
+
 func (r *Run) Skip(i int) bool { return r.only >= 0 && i != r.only }
 
 func mix(x uint64) uint64 {
